@@ -11,12 +11,12 @@ import (
 	vs "github.com/yandex/mysync/internal/verifsim"
 )
 
-var c08Conds = []string{"streaming-semi", "streaming-nonsemi", "stopped", "wrong-source", "refusing", "erroring", "timing-out"}
+var c08Conds = []string{"streaming-semi", "streaming-nonsemi", "stopped", "wrong-source", "refusing", "erroring", "timing-out", "sql-thread-failed", "io-thread-failed"}
 
 // TestVerifC08: a mysync that lost the coordination service fences its node unless provably safe.
 func TestVerifC08(t *testing.T) {
 	stt := vs.NewStats(t, "C08")
-	stt.Rule = "one daemon in the lost state (its ZooKeeper link cut until the session is gone) on a host that is master / HA replica / cascade, cluster of 1-4 HA hosts, semi_sync on/off, disable_set_readonly_on_lost on/off, local wait count 0-2 with the master flag on/off; per other HA host one of {streaming with the replica flag on, streaming with the flag off, stopped, streaming from someone else, refusing connections, answering an error, timing out}; the read-only attempt succeeds / fails with 1205 / hangs to the deadline / fails otherwise, with or without commits stuck waiting for a semi-sync ack; a sequence of 1-6 lost-state iterations with conditions changing in between, time advancing across inactivation_delay, reconnection at a drawn moment; oracle = decision table written from the statement applied to what the iteration could observe (ground truth + reachability at its start), plus 'never promotes, re-points or un-fences while disconnected'; non-trivial = a fence was expected, a postponement window was crossed, or stuck commits were present"
+	stt.Rule = "one daemon in the lost state (its ZooKeeper link cut until the session is gone) on a host that is master / HA replica / cascade, cluster of 1-4 HA hosts, semi_sync on/off, disable_set_readonly_on_lost on/off, local wait count 0-2 with the master flag on/off; per other HA host one of {streaming with the replica flag on, streaming with the flag off, stopped, SQL or IO thread failed with an error recorded, streaming from someone else, refusing connections, answering an error, timing out}; the read-only attempt succeeds / fails with 1205 / hangs to the deadline / fails otherwise, with or without commits stuck waiting for a semi-sync ack; a sequence of 1-6 lost-state iterations with conditions changing in between, time advancing across inactivation_delay, reconnection at a drawn moment; oracle = decision table written from the statement applied to what the iteration could observe (ground truth + reachability at its start), plus 'never promotes, re-points or un-fences while disconnected'; non-trivial = a fence was expected, a postponement window was crossed, or stuck commits were present"
 	stt.Assumptions = simAssumptions
 	stt.Check(t, vs.CheckOpts{Bubble: true}, func(c *vs.Case) {
 		n := c.Src.Int("ha_hosts", 1, 4)
@@ -95,6 +95,11 @@ func TestVerifC08(t *testing.T) {
 					hh.SSSlave = false
 				case "stopped":
 					hh.Chan.SQLDesired = false
+				case "sql-thread-failed":
+					// not running AND an error recorded (ReplicationError rather than ReplicationStopped)
+					hh.Chan.SQLDesired, hh.Chan.LastSQLErrno, hh.Chan.LastSQLError = false, 1062, "Duplicate entry"
+				case "io-thread-failed":
+					hh.Chan.IODesired, hh.Chan.LastIOErrno, hh.Chan.LastIOError = false, 13114, "Got fatal error 1236 from source"
 				case "wrong-source":
 					hh.Chan.Source = "elsewhere"
 					for _, y := range ha { // a running channel from another live server, if there is one
